@@ -91,6 +91,10 @@ func runWitness(repo string, w witness) (r witnessResult) {
 			return
 		}
 	}
+	if len(c.Undec) > 0 {
+		r.Status, r.Detail = "detected", "rule reported UNDECIDED: "+c.Undec[0]
+		return
+	}
 	r.Status = "missed"
 	r.Detail = fmt.Sprintf("expected a violation of a rule matching %q; got %d obligations and none violated it", w.Expect, len(c.Obs))
 	return
